@@ -45,12 +45,15 @@ def generate(rng, tier):
         # the primitive inside blocks of the other primitives (usimdst/mixed.py)
         return mixed.generate(rng, ID)
     actors = []
+    twins = rng.random() < 0.12     # messages that compare equal (1, 1.0, True) or are put twice
     for p in range(rng.randint(1, 3)):
         ops = []
         _gap(rng, ops, 0.8)
         for j in range(rng.randint(1, 4)):
             value = p * 100 + j
-            if value in (0, 1, 101) and rng.random() < 0.5:
+            if twins:
+                value = rng.choice([1, 1.0, True, 0, 0.0, False, 7, 7, "7"])
+            elif value in (0, 1, 101) and rng.random() < 0.5:
                 value = {0: 0, 1: None, 101: ""}[value]      # falsy and None are legal messages
             ops.append({"op": "put", "on": "C", "v": value})
             _gap(rng, ops)
@@ -123,6 +126,10 @@ def explore(case, base, rng, tier, one):
 
 
 SIGNALS = {"cancel": "CancelTask", "interrupt": "CancelScope", "close": "GeneratorExit"}
+
+
+def _key(value):
+    return (type(value).__name__, value)
 
 
 def check(rec):
@@ -214,23 +221,26 @@ def _check_one(rec, cname):
             excs[actor] = ev[5]
             subs.pop(actor, None)        # every subscription of the actor is gone
         elif kind == "put+":
-            pending_put[actor] = ev[6]
+            # (messages are known by type and value - 1, 1.0 and True are three messages - and a
+            # put by its own entry, so that equal messages put twice stay two messages)
+            entry = None
             if closed_at is None:
-                accepted.append([tick, ev[6], False])
+                entry = [tick, _key(ev[6]), False]
+                accepted.append(entry)
+            pending_put[actor] = (ev[6], entry)
         elif kind == "put-":
-            pending_put.pop(actor, None)
-            if closed_at is not None and not any(i[1] == ev[6] for i in accepted):
-                bad("put-after-close-accepted", "put(%r) on a closed channel returned" % ev[6])
+            _, entry = pending_put.pop(actor, (None, True))
+            if entry is None:
+                bad("put-after-close-accepted", "put(%r) on a closed channel returned" % (ev[6],))
         elif kind == "put.closed":
-            pending_put.pop(actor, None)
-            if any(i[1] == ev[6] for i in accepted):
+            _, entry = pending_put.pop(actor, (None, None))
+            if entry is not None:
                 bad("put-refused-while-open", "put(%r) raised StreamClosed on an open channel"
-                    % ev[6])
+                    % (ev[6],))
         elif kind == "put!":
-            value = pending_put.pop(actor, None)
-            for item in accepted:
-                if item[1] == value:
-                    item[2] = True
+            value, entry = pending_put.pop(actor, (None, None))
+            if entry is not None:
+                entry[2] = True
             if not excused(actor, tick):
                 bad("put-failed", "put(%r) by %s raised %r" % (value, actor, ev[7]))
         elif kind == "close+":
@@ -249,7 +259,7 @@ def _check_one(rec, cname):
                 bad("phantom", "%s received %r outside an iteration" % (actor, ev[6]))
             else:
                 sub["waiting"] = False
-                take(sub, actor, ev[6], "received")
+                take(sub, actor, _key(ev[6]), "received")
         elif kind == "iter-":
             sub = pop(actor)
             if sub is not None and sub["waiting"] and not sub.get("torn"):
@@ -274,7 +284,7 @@ def _check_one(rec, cname):
                 if sub["closed_at_start"]:
                     bad("get-on-closed", "%s: await on a closed channel returned %r"
                         % (actor, ev[6]))
-                take(sub, actor, ev[6], "got")
+                take(sub, actor, _key(ev[6]), "got")
                 if sub["k"] != 1 and not any(i[2] for i in expected(sub)[:sub["k"]]):
                     bad("not-first", "%s: await returned %r, not the first message put after it "
                         "began waiting" % (actor, ev[6]))
